@@ -233,8 +233,21 @@ NextR == \E e \in BinRejects : Rejected(e)
 Next == \/ \E k \in Keys : (\E v \in Vals : Set(k, v)) \/ Del(k)
         \/ \E p \in LookupKeys : Del(p) /\ p \notin Keys
         \/ \E p \in LookupKeys : DelSub(p)
+\* the j-th database write of a call raises (a failing disk / network store): the call raises,
+\* and nothing the trie knows changes.  Which of the earlier writes reached the database is left
+\* open (they are content addressed and harmless); the model keeps db as it was.
+FailWrite(a, k, v, j) ==
+  /\ LET r == BSet(root, k, v, a = "delsub") IN r.ok /\ j <= Cardinality(r.w)
+  /\ Log([a |-> "failwrite", op |-> a, k |-> k, v |-> JV(v), j |-> j, ok |-> FALSE])
+  /\ UNCHANGED <<root, db, contents, past>>
+NextF == \E k \in Keys : \E j \in 1..4 :
+           \/ \E v \in Vals : Cardinality(Live(contents) \cup {k}) <= MaxLive /\ FailWrite("set", k, v, j)
+           \/ FailWrite("del", k, NoVal, j) \/ FailWrite("delsub", k, NoVal, j)
+NextFSet == \E k \in Keys : \E j \in 1..3 : \E v \in Vals :
+              Cardinality(Live(contents) \cup {k}) <= MaxLive /\ FailWrite("set", k, v, j)
 Spec == Init /\ [][Next]_vars
 SpecR == Init /\ [][Next \/ NextR]_vars
+SpecF == Init /\ [][Next \/ NextF]_vars
 
 \* ------------------------------------------------------------------------
 \* PROPERTIES
